@@ -423,9 +423,6 @@ def run(ctx):
                 if kind == "Linear" and gen.int8pack_crash_class(wd, wq, q.in_features, quantized_activations=acts is not None):
                     ctx.count("steered_around_known_crash_class")
                     continue
-                if kind == "Linear" and q.in_features == 1 and wq == "qint8" and acts == "qint8":
-                    ctx.count("steered_around_known_crash_class")  # _int_mm K=1 (C07-F34)
-                    continue
                 for rep in range(2):
                     x = module_input(r, kind, q, wd)
                     if acts is not None:
